@@ -1,5 +1,6 @@
 """C16 - libavoid geometry predicates agree with exact arithmetic (DESIGN 5.16).
-proof: theorems about Gen/Geometry.v (regenerated from geometry.{h,cpp} by cpp2v on every run);
+proof: theorems about Gen/Geometry.v (regenerated from geometry.{h,cpp} by cpp2v on every run) and Gen/LineSeg.v
+(regenerated from libvpsc/linesegment.h: LineSegment::Intersect, used by vpsc::Rectangle::lineIntersections);
 tie: translator (T) + translator validation: compiled C++ vs extracted Gen vs extracted spec deciders on
 exhaustive integer grids."""
 import os, json, math
@@ -8,7 +9,24 @@ from vlib import common as C
 
 PID = 'C16'
 SPEC_SECTIONS = ['vecDir', 'pointOnLine', 'segmentIntersect', 'inPoly3', 'inPoly4',
-                 'segmentIntersectPoint_code', 'rayIntersectPoint_code', 'colinear', 'inBetween', 'inValidRegion', 'cornerSide', 'segmentShapeIntersect', 'inPolyGen3', 'inPolyGen4']
+                 'segmentIntersectPoint_code', 'rayIntersectPoint_code', 'colinear', 'inBetween', 'inValidRegion', 'cornerSide', 'segmentShapeIntersect', 'inPolyGen3', 'inPolyGen4',
+                 'LineSegment_Intersect', 'lineIntersections']
+LS_NAMES = ['PARALLEL', 'COINCIDENT', 'NOT_INTERSECTING', 'INTERSECTING']
+
+
+def ls_name(ch):
+    """result char of the LineSegment_Intersect sections -> readable"""
+    v = ord(ch) - 48
+    return (LS_NAMES[v & 3] + (' (out-parameter written)' if v & 4 else '')) if 0 <= v < 8 else ch
+
+
+def ri_flags(ch):
+    v = ord(ch) - 65
+    return {'intersects': v & 1, 'top': (v >> 1) & 1, 'bottom': (v >> 2) & 1, 'left': (v >> 3) & 1, 'right': (v >> 4) & 1}
+
+
+def rect_grid(G):
+    return 4 if G <= 4 else 5
 # spec sections that are defined only on part of the grid ('?' elsewhere) -> the C++ section they are compared with
 SPEC_MASKED_SECTIONS = {'inPolyGen3_region': 'inPolyGen3', 'inPolyGen4_region': 'inPolyGen4'}
 
@@ -44,6 +62,24 @@ def decode(section, idx, G, GP):
         r = idx % (n ** 4)
         i, j, k, l = r // n ** 3, (r // n ** 2) % n, (r // n) % n, r % n
         return {'fn': section, 'flag': flag, 'a': P(i, G), 'b': P(j, G), 'c': P(k, G), 'd': P(l, G)}
+    if section == 'LineSegment_Intersect':
+        i, j, k, l = idx // n ** 3, (idx // n ** 2) % n, (idx // n) % n, idx % n
+        return {'fn': 'linesegment::LineSegment::Intersect', 'this_segment': [P(i, G), P(j, G)],
+                'other_line': [P(k, G), P(l, G)],
+                'call': 'LineSegment(Vector(%d,%d),Vector(%d,%d)).Intersect(LineSegment(Vector(%d,%d),Vector(%d,%d)), iv)'
+                        % tuple(P(i, G) + P(j, G) + P(k, G) + P(l, G))}
+    if section == 'lineIntersections':
+        GR = rect_grid(G)
+        nl = (GR + 2) ** 2
+        rects = [(x0, x1, y0, y1) for x0 in range(GR) for x1 in range(x0, GR) for y0 in range(GR) for y1 in range(y0, GR)]
+        ridx, r = idx // (nl * nl), idx % (nl * nl)
+        i, j = r // nl, r % nl
+        LPt = lambda t: [t // (GR + 2) - 1, t % (GR + 2) - 1]
+        x0, x1, y0, y1 = rects[ridx]
+        return {'fn': 'vpsc::Rectangle::lineIntersections', 'rectangle': {'minX': x0, 'maxX': x1, 'minY': y0, 'maxY': y1},
+                'line': [LPt(i), LPt(j)],
+                'call': 'Rectangle r(%d,%d,%d,%d); r.set_width(%d); r.set_height(%d); r.lineIntersections(%d,%d,%d,%d, ri)'
+                        % (x0, x0 + 1, y0, y0 + 1, x1 - x0, y1 - y0, LPt(i)[0], LPt(i)[1], LPt(j)[0], LPt(j)[1])}
     if section in ('inPoly3', 'inPolyGen3'):
         cb = idx // (m ** 4)
         r = idx % (m ** 4)
@@ -55,7 +91,8 @@ def decode(section, idx, G, GP):
     return {'fn': section, 'index': idx}
 
 
-SPEC_NUMERIC_SECTIONS = ['segmentIntersectPoint_xy', 'manhattanDist', 'projection_xy']
+SPEC_NUMERIC_SECTIONS = ['segmentIntersectPoint_xy', 'manhattanDist', 'projection_xy', 'LineSegment_Intersect_xy',
+                         'lineIntersections_xy']
 
 
 def numeric_diff(s, a, b):
@@ -89,9 +126,11 @@ RAND_POS = ['vecDir', 'pointOnLine', 'colinear', 'inBetween', 'segmentIntersect'
             'segmentIntersectPoint code', 'rayIntersectPoint code',
             'inPoly(q=a,border=0)', 'inPoly(q=q,border=0)', 'inPoly(q=d,border=0)',
             'inPoly(q=a,border=1)', 'inPoly(q=q,border=1)', 'inPoly(q=d,border=1)',
-            'inPolyGen(q=a)', 'inPolyGen(q=q)', 'inPolyGen(q=d)']
+            'inPolyGen(q=a)', 'inPolyGen(q=q)', 'inPolyGen(q=d)',
+            'LineSegment(a,b).Intersect(LineSegment(c,d))', 'LineSegment(c,d).Intersect(LineSegment(a,b))']
 RAND_NUM = ['segmentIntersectPoint x', 'segmentIntersectPoint y', 'rayIntersectPoint x', 'rayIntersectPoint y',
-            'manhattanDist(a,b)']
+            'manhattanDist(a,b)', 'LineSegment(a,b).Intersect(LineSegment(c,d)) intersection.x_',
+            'LineSegment(a,b).Intersect(LineSegment(c,d)) intersection.y_']
 
 
 def _embed(rng, pts):
@@ -299,6 +338,11 @@ def random_stream(res, tier, cpp_exe, spec_exe, gen_exe):
         if j == 5:                               # manhattanDist of integer points: exact
             return fx != ex
         a, b, c, d, q = rows[i]
+        if j in (6, 7):
+            # LineSegment::Intersect: a1 + (nume_a / denom) * d1 - numerators and denominator are exact integers
+            # (< 2^44), then one rounded quotient, product and sum: |impl - exact| <= 2^-51 (|a1| + |exact|)
+            exact_stats['ulp_bound'] += 1
+            return abs(fx - ex) > Fraction(abs(a[j - 6]) + abs(ex), 1 << 51)
         Ax, Ay = b[0] - a[0], b[1] - a[1]
         Bx, By = c[0] - d[0], c[1] - d[1]
         Cx, Cy = a[0] - c[0], a[1] - c[1]
@@ -319,7 +363,7 @@ def random_stream(res, tier, cpp_exe, spec_exe, gen_exe):
             return out
         head = other[0].split()
         pos = [k for k, ch in enumerate(head[0]) if ch != '?']
-        nums = [j for j in range(1, 6) if head[j] != '?']
+        nums = [j for j in range(1, len(RAND_NUM) + 1) if head[j] != '?']
         exact = other_name == 'exact_spec'
         for i in range(count):
             lc, lo = cpp[i], other[i]
@@ -329,7 +373,9 @@ def random_stream(res, tier, cpp_exe, spec_exe, gen_exe):
             dc, do = fc[0], fo[0]
             bad = [k for k in pos if dc[k] != do[k]]
             if bad:
-                out.append(case(i, what, RAND_POS[bad[0]], dc[bad[0]], do[bad[0]], other_name))
+                k0 = bad[0]
+                nm = ls_name if RAND_POS[k0].startswith('LineSegment') else (lambda x: x)
+                out.append(case(i, what, RAND_POS[k0], nm(dc[k0]), nm(do[k0]), other_name))
             else:
                 badn = [j for j in nums if (exact_differs(i, j, fc[j], fo[j]) if exact else num_differs(fc[j], fo[j]))]
                 if badn:
@@ -350,6 +396,8 @@ def random_stream(res, tier, cpp_exe, spec_exe, gen_exe):
         res.violation(v)
     gen_bad = compare(gen, 'gen', 'compiled C++ vs extracted generated code (random stream)', 5) if gen is not None else []
     hist = {'collinear_abc': 0, 'crossing': 0, 'touching': 0, 'collinear_overlap': 0, 'disjoint': 0, 'zero_length': 0,
+            'lineseg_PARALLEL': 0, 'lineseg_COINCIDENT': 0, 'lineseg_NOT_INTERSECTING': 0, 'lineseg_INTERSECTING': 0,
+            'lineseg_zero_length_argument_off_line': 0,
             'c_strictly_on_ab': 0, 'q_inside_convex': 0, 'q_on_border': 0, 'max_abs_coordinate': 0}
     for i in range(min(count, len(cpp))):
         f = cpp[i].split()
@@ -366,13 +414,16 @@ def random_stream(res, tier, cpp_exe, spec_exe, gen_exe):
         hist['c_strictly_on_ab'] += dc[1] == '1'
         hist['q_inside_convex'] += dc[13] == '1'
         hist['q_on_border'] += dc[16] == '1' and dc[13] == '0'
+        if len(dc) > 21 and dc[21] in '0123':
+            hist['lineseg_' + LS_NAMES[int(dc[21])]] += 1
+            hist['lineseg_zero_length_argument_off_line'] += (c == d and a != b and dc[21] == '0')
     hist['max_abs_coordinate'] = max(abs(v) for pts in rows for p in pts for v in p)
     kh = {}
     for k in kinds:
         kh[k] = kh.get(k, 0) + 1
     info = {'tuples': count, 'seed': C.get_seed(), 'coordinate_bound': LIM, 'generator_kinds': kh, 'histogram': hist,
             'fields_compared_with_spec': [RAND_POS[k] for k, ch in enumerate(spec[0].split()[0]) if ch != '?']
-                                         + [RAND_NUM[j - 1] for j in range(1, 6) if spec[0].split()[j] != '?'] if spec and spec[0] else [],
+                                         + [RAND_NUM[j - 1] for j in range(1, len(RAND_NUM) + 1) if spec[0].split()[j] != '?'] if spec and spec[0] else [],
             'spec_violations': len(spec_bad), 'gen_disagreements': gen_bad[:5],
             'numeric_comparison': {'rule': 'returned x, y (and manhattanDist) compared with the exact rational of the spec: equality '
                                            'required when the exact value is dyadic (denominator <= 2^30) and |d*A| < 2^53, else '
@@ -385,11 +436,11 @@ def random_stream(res, tier, cpp_exe, spec_exe, gen_exe):
 def run(tier):
     res = C.Result(PID, tier, 'proof')
     G, GP = (4, 3) if tier == 'quick' else (6, 4)
-    info = C.prove(res, PID, gen_modules=['Geometry'])
+    info = C.prove(res, PID, gen_modules=['Geometry', 'LineSeg'])
     res.assumptions = ['binary64 evaluation of the predicates equals exact evaluation on the integer grids used (checked by the C++ vs extracted comparison)',
                        'cpp2v translates the fragment faithfully (validated on the same grids, every run)']
     # implementation side
-    exe = C.build_harness('c16_geom', ['libavoid'], 'plain')
+    exe = C.build_harness('c16_geom', ['libavoid', 'libvpsc'], 'plain')
     rc, cpp_out, err, dt = C.sh([exe, str(G), str(GP)], timeout=900)
     if rc != 0:
         res.violation({'what': 'harness c16_geom failed', 'rc': rc, 'stderr': err[-2000:]}, no_input=True)
@@ -407,7 +458,12 @@ def run(tier):
         d = first_diff(cpp[s], spec[s])
         if d is not None:
             case = decode(s, d, G, GP)
-            case.update({'implementation': cpp[s][d:d + 1], 'exact_spec': spec[s][d:d + 1],
+            ic, sc_ = cpp[s][d:d + 1], spec[s][d:d + 1]
+            if s == 'LineSegment_Intersect':
+                ic, sc_ = ls_name(ic) if ic else ic, ls_name(sc_) if sc_ else sc_
+            elif s == 'lineIntersections':
+                ic, sc_ = ri_flags(ic) if ic else ic, ri_flags(sc_) if sc_ else sc_
+            case.update({'implementation': ic, 'exact_spec': sc_,
                          'what': 'compiled %s disagrees with the exact-arithmetic spec decider' % s,
                          'replay': 'harness/c16_geom.cpp %d %d, section %s, index %d' % (G, GP, s, d)})
             res.violation(case)
@@ -430,8 +486,10 @@ def run(tier):
         evals += len(cpp[s])
         nd = numeric_diff(s, cpp[s], spec.get(s, []))
         if nd is not None:
-            nd.update({'what': 'compiled %s disagrees with the exact-arithmetic spec (columns: point indices i j k l on the '
-                               '%dx%d grid, index = x*G+y; then x y)' % (s, G, G),
+            cols = ('rectangle index, line end point indices i j (see section lineIntersections), side T/B/L/R; then the stored x y'
+                    if s == 'lineIntersections_xy' else
+                    'point indices i j k l on the %dx%d grid, index = x*G+y; then x y' % (G, G))
+            nd.update({'what': 'compiled %s disagrees with the exact-arithmetic spec (columns: %s)' % (s, cols),
                        'replay': 'harness/c16_geom.cpp %d %d, section %s' % (G, GP, s)})
             res.violation(nd)
             spec_viol += 1
@@ -475,17 +533,22 @@ def run(tier):
         spec_viol += rinfo['spec_violations']
         gen_diffs.extend(rgen_bad)
         res.cov['random_stream'] = rinfo
-    for s in ('vecDir', 'segmentIntersect', 'inPoly3'):
+    for s in ('vecDir', 'segmentIntersect', 'inPoly3', 'LineSegment_Intersect', 'lineIntersections'):
         for idx in (7, len(cpp[s]) // 2 + 3):
             c = decode(s, idx, G, GP)
             c['result'] = cpp[s][idx]
             samples.append(c)
     nontriv = sum(1 for s in cpp if not (s.endswith('_xy') or s == 'manhattanDist') for ch in set(cpp[s])) \
-        + sum(cpp[s].count('1') for s in ('segmentIntersect', 'pointOnLine'))
+        + sum(cpp[s].count('1') for s in ('segmentIntersect', 'pointOnLine')) \
+        + sum(1 for ch in cpp['LineSegment_Intersect'] if ch in '13') + sum(1 for ch in cpp['lineIntersections'] if ch != 'A')
     res.cov.update({'evaluations': evals, 'distinct_nontrivial': nontriv,
                     'rule': 'exhaustive: all point tuples on the %dx%d integer grid for 3-/4-point predicates, all (possibly degenerate) '
                             'triangles and quadrilaterals on the %dx%d grid with every query point; non-trivial = tuples on which '
-                            'segmentIntersect / pointOnLine answer true, plus the number of distinct outcomes per predicate' % (G, G, GP, GP),
+                            'segmentIntersect / pointOnLine answer true, segment pairs classed COINCIDENT / INTERSECTING by '
+                            'LineSegment::Intersect, (rectangle, line) pairs with at least one flag set by Rectangle::lineIntersections '
+                            '(all %d rectangles incl. zero-width/height with corners on the %dx%d grid x all lines between points of '
+                            '[-1,%d]^2), plus the number of distinct outcomes per predicate'
+                            % (G, G, GP, GP, (rect_grid(G) * (rect_grid(G) + 1) // 2) ** 2, rect_grid(G), rect_grid(G), rect_grid(G)),
                     'exhaustive': True, 'samples': samples,
                     'traces_validated_against_impl': evals,
                     'translator_validation': {'sections': sorted(cpp.keys()), 'disagreements': gen_diffs[:5]},
@@ -507,7 +570,7 @@ def replay(path):
 
 
 def warm():
-    C.build_harness('c16_geom', ['libavoid'], 'plain')
+    C.build_harness('c16_geom', ['libavoid', 'libvpsc'], 'plain')
     C.ocaml_build('c16spec', 'C16spec.v', 'c16_spec_driver.ml', 'c16_spec.ml')
     C.ocaml_build('c16gen', 'C16gen.v', 'c16_gen_driver.ml', 'c16_gen.ml')
 
@@ -516,7 +579,7 @@ META = {
     'property_id': PID,
     'level_claimed': {
         'category': 'proof',
-        'text': 'Theorems in Coq over the Gallina definitions that tools/cpp2v.py regenerates from geometry.h/geometry.cpp on every run, '
+        'text': 'Theorems in Coq over the Gallina definitions that tools/cpp2v.py regenerates from libavoid geometry.h/geometry.cpp and libvpsc linesegment.h on every run, '
                 'all for every rational input: vecDir = sign of the cross product; segmentIntersect <-> the open segments properly cross; '
                 'pointOnLine <-> strictly between; colinear <-> cross = 0; inBetween <-> strictly between (collinear inputs, a.x = b.x or '
                 '|a.x-b.x| > epsilon; the epsilon gap is exhibited by inBetween_eps_refuted); cornerSide / inValidRegion = the case tables '
@@ -527,13 +590,24 @@ META = {
                 'rayIntersectPoint; inPoly <-> all edge cross products non-negative (positive without border); inPolyGen = the '
                 'division-free crossing-parity rule for every polygon, = closed-region membership for every non-degenerate triangle '
                 'and every axis-parallel rectangle in any vertex order, true at every vertex; manhattanDist, projection; the swap / '
-                'reversal / translation symmetries and the eight symmetries of the square with the orientation sign tracked. The tie is the '
+                'reversal / translation symmetries and the eight symmetries of the square with the orientation sign tracked. '
+                'libvpsc linesegment::LineSegment::Intersect (regenerated from linesegment.h into Gen/LineSeg.v): INTERSECTING <-> '
+                'directions not parallel and the closed segments share a point (ua, ub in [0,1]), the out-parameter then being that unique '
+                'point; NOT_INTERSECTING <-> not parallel and no common point; COINCIDENT <-> parallel directions and all four end points '
+                'on one line (a zero-length segment: iff the point is on the other segment\'s line - even when it lies on the segment '
+                'the answer is COINCIDENT, never INTERSECTING; two points: always COINCIDENT); PARALLEL otherwise; out-parameter untouched '
+                'unless INTERSECTING; classification (and point) invariant under swapping the two segments and reversing either. '
+                'vpsc::Rectangle::lineIntersections: hand-written composition model (checkIntersection over top, bottom, left, right with '
+                'the early return on COINCIDENT) proved to set a side flag iff that side is INTERSECTING unless some side is COINCIDENT '
+                '(then nothing is reported); tied by exhaustive correspondence on grid rectangles incl. zero width/height. The tie is the '
                 'translator plus, on every run, an exhaustive three-way comparison (compiled C++ / extracted generated code / extracted '
                 'spec deciders) on integer grids and on a seeded structured random stream of integer tuples up to 2^20.',
         'design_ref': 'DESIGN.md 5.16'},
     'level_note': 'Trusted: Coq kernel; cpp2v.py + clang JSON AST; exact-rational model of binary64 (exact on the integer inputs the '
                   'property names: all products below 2^53; quotients compared within 1e-9; checked by the grid and random-stream '
                   'comparison); extraction (ExtrOcamlBasic) and the OCaml/C++ drivers. Stated but not proved: inPolyGen for general simple '
-                  'polygons (inPolyGen_general_partial, needs a Jordan-curve argument). Not modelled: angle, rotationalAngle, euclideanDist.',
+                  'polygons (inPolyGen_general_partial, needs a Jordan-curve argument). Not modelled: angle, rotationalAngle, euclideanDist. '
+                  'Rectangle::lineIntersections / checkIntersection (rectangle.cpp: switch, object construction) are not translated by '
+                  'cpp2v: the model lineIntersections_model is hand-written (Geom/LineSegSpec.v) and tied by exhaustive correspondence only.',
     'technique': 'Coq proof over cpp2v-regenerated Gallina + exhaustive grid and random-stream correspondence',
 }
